@@ -119,11 +119,11 @@ theorem close_outSX {g : E2E.Cfg} {c : Conn} {r r2 : AReq} {cs : CloseSt} {rest 
 /-! ## The handler with the flag raised: it runs on -/
 
 theorem handler_coreSX {g : E2E.Cfg} {c : Conn} {r : AReq} {h : HState} (hph : c.phase = .handler r h)
-    (hout : HOut g.Wc g.Rd c.env (handlerPoll (handlerFuel c.env r) r h c.env))
+    (hout : HOut g.Wc g.Rd c.env (handlerPoll ((handlerFuel c.env r + scriptOf c)) r h c.env))
     (hb : Ben c.env.tr) (hstop : c.stop = true) (hev : Ev1 g c.env.tr) (hsc : c.scripts = g.more) :
     ResSX g (2 * c.env.tr.input.length + 10) c := by
   have hstep := C07.handler_step c r h hph
-  rcases hhp : handlerPoll (handlerFuel c.env r) r h c.env with ⟨r', h', e', res⟩
+  rcases hhp : handlerPoll ((handlerFuel c.env r + scriptOf c)) r h c.env with ⟨r', h', e', res⟩
   rw [hhp] at hstep hout
   obtain ⟨hts, hsegs, hres⟩ := hout
   simp only at hts hsegs hres
@@ -190,7 +190,7 @@ theorem stageS_pollX {g : E2E.Cfg} (ok : g.OK) {c : Conn} (hst : StageS g c) :
     · exact fin_now _ _ hph (.early ⟨rfl, hev, hlogp, hsc⟩)
     · exact fin_now _ _ hph (.early ⟨rfl, hev, hlogp, hsc⟩)
   | @hread r h hph hr hb _ hev hsc =>
-    exact (handler_coreSX (c := c) hph (rd_poll ok hr hb hr.fuel) hb hstop hev hsc).mono (by omega)
+    exact (handler_coreSX (c := c) hph (rd_poll ok hr hb (Nat.le_trans hr.fuel (Nat.le_add_right _ _))) hb hstop hev hsc).mono (by omega)
   | @hwrite r h O1 hph hw hb _ hev hsc =>
     refine (handler_coreSX (c := c) hph (write_phase hw hb ?_) hb hstop hev hsc).mono (by omega)
     have := handlerFuel_ge c.env r
